@@ -202,6 +202,35 @@ def file_level(ctx):
                 migrate_v1_to_v2(root)
         except Exception as e:  # noqa: BLE001
             ctx.violation("migrate_v1_to_v2 raised " + type(e).__name__, exception=repr(e))
+        # the command-line entry point (d42/_main.py: `d42 v1-to-v2 <dir>`) on a second copy must leave the same bytes
+        import subprocess
+        import sys
+        root2 = tempfile.mkdtemp(prefix="d42-c19-cli-")
+        try:
+            for rel, data in files.items():
+                path = os.path.join(root2, rel)
+                os.makedirs(os.path.dirname(path), exist_ok=True)
+                with open(path, "wb") as f:
+                    f.write(data)
+            from ..common import REPO
+            env = dict(os.environ, PYTHONPATH=REPO + os.pathsep + os.environ.get("PYTHONPATH", ""), PYTHONDONTWRITEBYTECODE="1")
+            p = subprocess.run([sys.executable, "-m", "d42", "v1-to-v2", root2], env=env, stdout=subprocess.PIPE,
+                               stderr=subprocess.PIPE, timeout=300)
+            if p.returncode != 0:
+                ctx.violation("the command line `d42 v1-to-v2 <dir>` failed", stderr=p.stderr.decode()[-800:])
+            else:
+                for rel in files:
+                    with open(os.path.join(root, rel), "rb") as f1, open(os.path.join(root2, rel), "rb") as f2:
+                        ctx.count("cli_files_compared")
+                        if f1.read() != f2.read():
+                            ctx.violation("the command line and migrate_v1_to_v2() leave different files", file=rel)
+            p = subprocess.run([sys.executable, "-m", "d42", "v1-to-v2", os.path.join(root2, "no-such-dir")], env=env,
+                               stdout=subprocess.PIPE, stderr=subprocess.PIPE, timeout=300)
+            if p.returncode != 0 or b"not a valid directory" not in p.stdout:
+                ctx.violation("the command line does not report a missing directory", stdout=p.stdout.decode()[-400:],
+                              stderr=p.stderr.decode()[-400:])
+        finally:
+            shutil.rmtree(root2, ignore_errors=True)
         for rel, data in files.items():
             ctx.count("file_level_files")
             with open(os.path.join(root, rel), "rb") as f:
